@@ -1,0 +1,13 @@
+//go:build verif
+
+package tacquito
+
+import "net"
+
+// NewClientFromConn is a verification-only constructor (build tag `verif`): it
+// returns a Client that speaks over an already established connection, so that
+// Client.Send can be driven over a scripted in-memory peer. The stock
+// constructors only dial real TCP.
+func NewClientFromConn(conn net.Conn, secret []byte) *Client {
+	return &Client{crypter: newCrypter(secret, conn, false)}
+}
